@@ -349,6 +349,9 @@ open_dump(kdump_ctx_t *ctx)
 
 		ctx->shared->ops = NULL;
 		if (ctx->shared->cache) {
+			/* The statistics attributes point into the cache. */
+			attr_embed_value(gattr(ctx, GKI_cache_hits));
+			attr_embed_value(gattr(ctx, GKI_cache_misses));
 			cache_free(ctx->shared->cache);
 			ctx->shared->cache = NULL;
 		}
